@@ -36,7 +36,18 @@ async fn reservation_index_contract() {
         for step in 0..12 {
             let n_in = 1 + rng.below(2) as usize;
             let inputs: Vec<(u64, u64)> = (0..n_in).map(|_| (rng.below(5), 10)).collect();
-            if rng.below(3) < 2 {
+            let action = rng.below(4);
+            if action == 3 && !pooled.is_empty() {
+                // what Blockchain::remove_block_transactions does when a block arrives: pooled transactions that no longer
+                // validate are dropped with `transactions.retain(..)`, then delete_transactions(block.transactions) runs —
+                // here the block carries none of the pooled transactions
+                let k = rng.below(pooled.len() as u64) as usize;
+                let gone = pooled.remove(k);
+                mempool.transactions.retain(|sig, _| *sig != gone.signature);
+                let foreign = mk_tx(pk, &sk, &[(90 + rng.below(5), 10)], 200 + step as u8);
+                mempool.delete_transactions(&vec![foreign]);
+                trace.push(format!("dropped-as-invalid(inputs={:?}) + delete(foreign block)", gone.from.iter().map(|s| s.tx_ordinal).collect::<Vec<_>>()));
+            } else if action < 2 {
                 let tx = mk_tx(pk, &sk, &inputs, step as u8);
                 let keys: Vec<SaitoUTXOSetKey> = tx.from.iter().map(|s| s.utxoset_key).collect();
                 let conflict = pooled.iter().any(|p| p.from.iter().any(|s| keys.contains(&s.utxoset_key)));
